@@ -636,6 +636,8 @@ pub fn gen_camt_case(r: &mut Rng) -> Case17Camt {
                 info: pick_opt(r, &C_INFOS, 4, 5),
                 frag: Frag::default(),
                 parties: Some(parties),
+                reversal: gen_rvsl_detail(r),
+                charges_total: None,
             });
         }
         let m = if nd == 0 { 1 + r.below(500_000) } else { sum };
@@ -650,6 +652,8 @@ pub fn gen_camt_case(r: &mut Rng) -> Case17Camt {
             info: r.pick(&C_INFOS).to_string(),
             frag: Frag::default(),
             batch: if r.chance(1, 4) && nd > 0 { BatchHdr::Absent } else { BatchHdr::Consistent },
+            reversal: gen_rvsl_entry(r),
+            charges_total: None,
         });
     }
     let stmt = Statement { balances: vec![Balance { opening: false, amt: amt(1 + r.below(900_000)), credit: true }], entries };
